@@ -71,17 +71,22 @@ PROPS = {
             '(yash-env/src/trap.rs: TrapSet::set_action_impl, set_internal_disposition, the six enable_/disable_internal_disposition* '
             'functions, catch_signal, take_signal_if_caught) the same invariant is proved for ALL signals at once (tinv), '
             'SIGKILL and SIGSTOP are refused before anything is touched, shell-internal changes never alter a user action, a catch '
-            'sets and a take clears the pending flag of exactly the named signal. Not decided: TrapSet::enter_subshell and '
-            'take_caught_signal (iteration over the map with closures; their per-record step GrandState::enter_subshell / '
-            'handle_if_caught is proved), clear_parent_states (assumed), and WHEN traps run (command boundary, interrupted wait): '
-            'that is scheduling of the async read-eval loop.'),
+            'sets and a take clears the pending flag of exactly the named signal. TrapSet::enter_subshell (the loop over the '
+            'table choosing the option per signal, then the vacant SIGINT/SIGQUIT records) and clear_parent_states are proved as '
+            'well, their `for` loops checked as `while` loops over an assumed model of the map\'s mutable iterator: the table '
+            'invariant holds again, command traps are reset with the old state remembered, ignores stay, internal dispositions '
+            'are cleared except for SIGCHLD, SIGINT/SIGQUIT (asynchronous list) and enabled stoppers (job control) end up ignored. '
+            'Not decided: take_caught_signal (iter_mut().find_map with a closure that returns a borrow; its per-record step '
+            'handle_if_caught is proved), and WHEN traps run (command boundary, interrupted wait): that is scheduling of the '
+            'async read-eval loop.'),
         'trusted_base': ['Verus 0.2026.09.13 + Z3', 'vstd model of map entries (hash_map::Entry, used in place of btree_map::Entry)',
                          '/verif/tools/vextract.py'],
         'assumptions': [
             'SignalSystem is replaced by a synchronous model trait whose set_disposition takes &mut self, returns the previous disposition and installs the new one for that signal only (assumed contract of the OS side)',
             'await points are dropped: awaited futures complete immediately and nothing else runs in between',
             'btree_map::Entry has the same contract as hash_map::Entry (vstd specifies only the latter); the table field BTreeMap<Condition, GrandState> is checked as a HashMap (entry/get_mut only); get_mut has an assumed contract; Condition obeys the hash-map key model',
-            'TrapSet::clear_parent_states (a for loop over values_mut) is assumed to clear every parent state and nothing else',
+            'iteration over the table by mutable reference (`for (k, v) in &mut map`, `values_mut()`) is checked through an assumed model iterator: every entry is yielded exactly once as a mutable reference whose final value the map holds afterwards (VerifIterMut in prelude_set2.rs); `for x in [a, b]` is checked as a while loop over the two indices',
+            'Result::unwrap_or_default returns the Ok value (assumed)',
             'derived PartialEq is structural equality and derived Ord follows declaration order (Default < Ignore < Catch)',
             'source::Location is an opaque placeholder type; thiserror\'s #[from] expansion is written out by hand',
         ],
@@ -94,14 +99,15 @@ PROPS = {
             'Only the last sentence of C08 is decided: on subshell entry a trap with a command action is reset to default '
             '(origin Subshell, pending cleared) and its previous state remembered as the parent state, an ignored signal '
             'stays ignored, the Ignore option forces ignore, and the installed disposition follows -- proved by Verus as the '
-            'postcondition of GrandState::enter_subshell / GrandState::ignore (unit trap, shared with C11). Isolation of '
+            'postcondition of GrandState::enter_subshell / GrandState::ignore and, for the whole table, of TrapSet::enter_subshell '
+            '(unit trap, shared with C11). Isolation of '
             'variables, functions, aliases, options, working directory, umask and descriptors under all interleavings is a '
             'property of fork/clone of Env and of the simulated process table: no function-level contract reaches it, and '
             'it is NOT decided by this check.'),
         'trusted_base': ['Verus 0.2026.09.13 + Z3', '/verif/tools/vextract.py'],
         'assumptions': [
             'same as C11 (model SignalSystem, stripped async, hash_map::Entry contract, derived PartialEq/Ord)',
-            'TrapSet::enter_subshell (the loop choosing the option per signal) is not under contract',
+            'TrapSet::enter_subshell is under contract (see C11): its two for loops are checked as while loops over an assumed model of the map iterator',
         ],
     },
     'C01': {
